@@ -231,6 +231,25 @@ def check_tables(program, rep):
     w = Walker(program, _TabDomain(program))
     exits = [e for e in w.run(g, disp) if e.kind != 'raise']
     bad = None
+    bad_id = None
+    # attributes of the dispatcher subscripted with id(<something>)
+    id_keyed = sorted({x.value.attr for m_ in disp.methods.values()
+                       for x in ast.walk(m_.node)
+                       if isinstance(x, ast.Subscript) and isinstance(
+                           x.value, ast.Attribute) and isinstance(
+                               x.value.value, ast.Name)
+                       and x.value.value.id == 'self' and isinstance(
+                           x.slice, ast.Call) and dotted(x.slice.func) == 'id'}
+                      | {x.func.value.attr for m_ in disp.methods.values()
+                         for x in ast.walk(m_.node)
+                         if isinstance(x, ast.Call) and isinstance(
+                             x.func, ast.Attribute) and x.func.attr in (
+                                 'get', 'setdefault', 'pop') and isinstance(
+                                     x.func.value, ast.Attribute)
+                         and isinstance(x.func.value.value, ast.Name)
+                         and x.func.value.value.id == 'self' and x.args
+                         and isinstance(x.args[0], ast.Call)
+                         and dotted(x.args[0].func) == 'id'})
     n_main = n_guard = 0
     rec = f'{HANDLERS}[{r}]'
     for ex in exits:
@@ -247,6 +266,29 @@ def check_tables(program, rep):
             e.kind == 'call' and isinstance(e.sym.node, ast.Call)
             and isinstance(e.sym.node.func, ast.Attribute)
             and e.sym.node.func.attr in ('remove', 'discard', 'pop', 'clear'))]
+        def _aux(e_):
+            # a change of an auxiliary attribute of the dispatcher (a memo of
+            # references, a counter) is not a change of the listener tables
+            n_ = e_.sym.node if e_.sym is not None else e_.node
+            n_ = n_.func.value if isinstance(n_, ast.Call) and isinstance(
+                n_.func, ast.Attribute) else n_
+            while isinstance(n_, (ast.Subscript, ast.Call)):
+                n_ = n_.value if isinstance(n_, ast.Subscript) else n_.func
+            t_ = dotted(n_) or ''
+            return t_.startswith('self.') and t_.split('.')[1] not in (
+                EVENTS.split('.')[1], HANDLERS.split('.')[1])
+        for a_ in id_keyed:
+            if not any((e.kind == 'del' or e.kind == 'call') and _aux(e)
+                       and f'self.{a_}' in norm(
+                           e.sym.node if e.sym is not None else e.node)
+                       and e in muts for e in tr):
+                bad_id = bad_id or (g, f'self.{a_} is keyed by id(handler) '
+                                    'but the weak-reference callback has a '
+                                    'path that leaves the entry of a dead '
+                                    'handler in it: a later handler allocated '
+                                    'at the same address is taken for the '
+                                    'dead one (registered, never called)')
+        muts = [e for e in muts if not _aux(e)]
         if known is False:
             n_guard += 1
             if muts:
@@ -324,13 +366,53 @@ def check_tables(program, rep):
               'the reference; unknown references are ignored',
               bad[1] if bad else 'no guarded / main path recognised',
               line=g.node.lineno)
+    if id_keyed:
+        rep.check(bad_id is None, 'C03.tables', g.where,
+                  '_remove_weak_handler', 'tables keyed by id(handler) ('
+                  + ', '.join(id_keyed) + ') lose the entry of a handler on '
+                  'every path of the weak-reference callback',
+                  bad_id[1] if bad_id else '', line=g.node.lineno)
     # ---- remove_handler / is_handler
     rh = program.method('EventDispatcher', 'remove_handler', inherited=False)
     hp = rh.params()[1]
     calls = [n for n in ast.walk(rh.node) if isinstance(n, ast.Call)
              and norm(n.func) == 'self._remove_weak_handler']
-    ok = len(calls) == 1 and calls[0].args and norm(calls[0].args[0]) in (
-        f'weakref.ref({hp})',)
+    def ref_of(expr, hp_):
+        """expr denotes the key add_handler files for handler hp_: a fresh
+        weakref.ref(hp_), or - through a private helper of the dispatcher -
+        that or the reference remembered under id(hp_) in a table whose
+        entries die with their handler (the id-keyed rule above)."""
+        if norm(expr) == f'weakref.ref({hp_})':
+            return True
+        if not (isinstance(expr, ast.Call) and isinstance(
+                expr.func, ast.Attribute) and norm(expr.func.value) == 'self'
+                and len(expr.args) == 1 and not expr.keywords
+                and norm(expr.args[0]) == hp_):
+            return False
+        h_ = disp.methods.get(expr.func.attr)
+        if h_ is None or not expr.func.attr.startswith('_') or len(
+                h_.params()) != 2:
+            return False
+        q_ = h_.params()[1]
+        okv = (f'weakref.ref({q_})',) + tuple(
+            t for a_ in id_keyed for t in (f'self.{a_}.get(id({q_}))',
+                                           f'self.{a_}.get(id({q_}), None)'))
+        rets_ = [n for n in ast.walk(h_.node) if isinstance(n, ast.Return)]
+        if not rets_:
+            return False
+        for r_ in rets_:
+            if r_.value is None:
+                return False
+            if norm(r_.value) in okv[:1]:
+                continue
+            if not isinstance(r_.value, ast.Name):
+                return False
+            asg = [n for n in ast.walk(h_.node) if isinstance(n, ast.Assign)
+                   and any(norm(t) == r_.value.id for t in n.targets)]
+            if not asg or any(norm(a.value) not in okv for a in asg):
+                return False
+        return True
+    ok = len(calls) == 1 and calls[0].args and ref_of(calls[0].args[0], hp)
     rep.check(ok, 'C03.tables', rh.where, calls[0] if calls else rh.node.name,
               'remove_handler removes the weak reference of the given handler',
               'remove_handler does not hand weakref.ref(handler) to the '
@@ -338,8 +420,11 @@ def check_tables(program, rep):
     ih = program.method('EventDispatcher', 'is_handler', inherited=False)
     hp = ih.params()[1]
     rets = [n for n in ast.walk(ih.node) if isinstance(n, ast.Return)]
-    ok = len(rets) == 1 and norm(rets[0].value) == \
-        f'weakref.ref({hp}) in {HANDLERS}'
+    ok = len(rets) == 1 and isinstance(rets[0].value, ast.Compare) and len(
+        rets[0].value.ops) == 1 and isinstance(
+            rets[0].value.ops[0], ast.In) and norm(
+                rets[0].value.comparators[0]) == HANDLERS and ref_of(
+                    rets[0].value.left, hp)
     rep.check(ok, 'C03.tables', ih.where, rets[0] if rets else ih.node.name,
               'is_handler tests the key add_handler files',
               'is_handler does not test weakref.ref(handler) in _handlers',
